@@ -186,6 +186,11 @@ type sessionOpts struct {
 	defRecov bool   // leave Config.Recover at its default (LogPanic): the recovery shows as an error record of the logger
 }
 
+// structHandler is a Handler that is not a HandlerFunc (recovery must not depend on the handler's type)
+type structHandler struct{ f client.HandlerFunc }
+
+func (s *structHandler) Handle(c *client.Conn, l *client.Line) { s.f(c, l) }
+
 // recLogger turns the error record of the default recovery function into a "recover" event.
 type recLogger struct{ onPanic func() }
 
@@ -400,8 +405,8 @@ func runSession(t *tlog, o sessionOpts, rng *rand.Rand) (stats map[string]int, e
 	}
 	for v := range verbs {
 		s.C.HandleFunc(v, mk("fg", "f1"))
-		s.C.Handle(v, mk("fg", "f2"))
-		s.C.HandleBG(v, mk("bg", "b1"))
+		s.C.Handle(v, &structHandler{mk("fg", "f2")})
+		s.C.HandleBG(v, &structHandler{mk("bg", "b1")})
 	}
 	// a one-shot foreground handler: it removes itself first and then goes on working for a while - the
 	// event loop has to wait for it like for any other handler of that line
